@@ -118,6 +118,9 @@ struct Generator::GeneratorImpl
     std::string generateOperatorCode(const std::string &op,
                                      const AnalyserEquationAstPtr &ast) const;
     std::string generateMinusUnaryCode(const AnalyserEquationAstPtr &ast) const;
+    std::string generatePlusUnaryCode(const AnalyserEquationAstPtr &ast) const;
+    std::string generateNotCode(const AnalyserEquationAstPtr &ast) const;
+    std::string generatePiecewiseOperandCode(const AnalyserEquationAstPtr &ast) const;
     std::string generateOneParameterFunctionCode(const std::string &function,
                                                  const AnalyserEquationAstPtr &ast) const;
     std::string generateTwoParameterFunctionCode(const std::string &function,
